@@ -58,7 +58,7 @@ def leaf(syms, pool=()):
     )
 
 
-def exprs(syms, psyms=(), depth=3, pool=()):
+def exprs(syms, psyms=(), depth=3, pool=(), allow_abs2=True, allow_wrap=False):
     """Strategy for E-trees over symbol names `syms`; `psyms` are known-positive symbols (subset of syms);
     `pool` are already-built trees offered as leaves (shared sub-expressions)."""
     syms = list(syms)
@@ -93,7 +93,18 @@ def exprs(syms, psyms=(), depth=3, pool=()):
                 st.builds(lambda b: ["tan", b], B),
                 st.builds(lambda a: ["sqrt", a], D),
                 st.builds(lambda a: ["log", a], D),
+                # a function composed with its inverse OUTSIDE the principal branch (heading-wrap idiom):
+                # atan(tan(u)), asin(sin(u)), acos(cos(u)) are NOT u there; |abs2| = sqrt(E**2) is |E|, not E
             ]
+            if allow_wrap and d == depth:  # outermost level only: sympy's simplify is slow on nested inverse-trig compositions
+                # differentiating asin(sin u) / acos(cos u) costs sympy 1-2 s per Jacobian entry: filters use atan only
+                kinds = ["atan"] if allow_wrap == "atan" else ["atan", "asin", "acos"]
+                Bs = st.builds(lambda f, a: [f, a], st.sampled_from(BOUNDED), E(min(d - 1, 1)))  # shallow argument
+                opts.append(st.builds(lambda k, b: ["wrap", k, b], st.sampled_from(kinds), Bs))
+            if allow_abs2 and allow_wrap and d >= depth - 1:
+                # sqrt((B - 2)**2) = 2 - B: the argument stays in [-3,-1], so the expression is smooth everywhere,
+                # but a simplifier that rewrites sqrt(x**2) -> x flips its sign
+                opts.append(st.builds(lambda b: ["abs2", b], st.builds(lambda f, a: [f, a], st.sampled_from(BOUNDED), E(min(d - 1, 1)))))
             if psyms:
                 opts.append(st.builds(lambda a, p: ["div", a, ["sym", p]], sub, st.sampled_from(psyms)))
                 opts.append(st.builds(lambda p, n: ["pinv", p, n], st.sampled_from(psyms), st.sampled_from([1, 2])))
@@ -130,6 +141,13 @@ def to_sympy(t, symtab=None):
         return to_sympy(t[1], symtab) ** int(t[2])
     if k == "pinv":
         return to_sympy(["sym", t[1]], symtab) ** (-int(t[2]))
+    if k == "wrap":
+        c0, c1 = WRAP[t[1]]
+        u = sympy.Rational(*c0) + sympy.Rational(*c1) * to_sympy(t[2], symtab)
+        inner, outer = {"atan": (sympy.tan, sympy.atan), "asin": (sympy.sin, sympy.asin), "acos": (sympy.cos, sympy.acos)}[t[1]]
+        return outer(inner(u))
+    if k == "abs2":
+        return sympy.sqrt((to_sympy(t[1], symtab) - 2) ** 2)
     f = {"sin": sympy.sin, "cos": sympy.cos, "tanh": sympy.tanh, "atan": sympy.atan, "exp": sympy.exp,
          "sqrt": sympy.sqrt, "log": sympy.log, "sec": sympy.sec, "tan": sympy.tan}[k]
     return f(to_sympy(t[1], symtab))
@@ -158,9 +176,19 @@ def eval_mp(t, env):
         return eval_mp(t[1], env) ** int(t[2])
     if k == "pinv":
         return 1 / (env[t[1]] ** int(t[2]))
+    if k == "wrap":
+        c0, c1 = WRAP[t[1]]
+        u = mp.mpf(c0[0]) / c0[1] + (mp.mpf(c1[0]) / c1[1]) * eval_mp(t[2], env)
+        return {"atan": lambda v: mp.atan(mp.tan(v)), "asin": lambda v: mp.asin(mp.sin(v)), "acos": lambda v: mp.acos(mp.cos(v))}[t[1]](u)
+    if k == "abs2":
+        return abs(eval_mp(t[1], env) - 2)
     return _MPF[k](eval_mp(t[1], env))
 
 
+# u = c0 + c1*B with |B| <= 1 stays inside an interval on which inner() is monotone and away from the points where the
+# outer inverse is singular: atan(tan u), u in [1.8,4.4] = u - pi; asin(sin u), u in [1.8,4.4] = pi - u;
+# acos(cos u), u in [3.5,5.9] = 2 pi - u
+WRAP = {"atan": ((31, 10), (13, 10)), "asin": ((31, 10), (13, 10)), "acos": ((47, 10), (12, 10))}
 INV_E = mp.mpf(1) / mp.e  # lower bound of exp(B)
 
 
@@ -194,7 +222,12 @@ def scales(t, env, pmin=0.5):
         n = int(t[2])
         v = abs(env[t[1]])
         return 1 / v**n, n / v ** (n + 1)
+    if k == "wrap":
+        a, da = scales(t[2], env, pmin)
+        return mp.mpf(7), 2 * da
     a, da = scales(t[1], env, pmin)
+    if k == "abs2":
+        return mp.mpf(3), da
     if k in ("sin", "cos", "tanh"):
         return mp.mpf(1), da
     if k == "atan":
